@@ -86,6 +86,17 @@ def main():
             return r
         return o_tsave(obj, f, *a, **k)
 
+    o_remove, o_unlink = os.remove, os.unlink
+
+    def remove(p, *a, **k):
+        tick(p)
+        return o_remove(p, *a, **k)
+
+    def unlink(p, *a, **k):
+        tick(p)
+        return o_unlink(p, *a, **k)
+
+    os.remove, os.unlink = remove, unlink
     os.path.exists, shutil.move, builtins.open, torch.save = exists, move, open_, tsave
     o_dump, o_save = sbase.safe_file_dump, FlowModel.save_weights
 
